@@ -336,6 +336,7 @@ func vfC16(c *hx.Ctx) {
 	c.Rule("(a) convergence: decoder (d',p') fed an uninterrupted run from a real (d,p) encoder for every pair with d,d'<=4, p,p'<=3 (and the lazily created 1/1 decoder, and boundary pairs up to d+p=255), from every starting residue of the " +
 		"sequence id and several bases incl. the wrap value; it must hold the sender's ratio after at most 258+2(d+p) packets and then recover a single loss in the next complete group; " +
 		"(b) stability: with equal ratios every fate vector {deliver, drop, duplicate, swap with successor} over the first K genuine packets never sets the tuning flag or changes the ratio (checked after every packet). " +
+		"(c) whole sessions whose ends are configured with different ratios, or with FEC at one end only, under every fate vector over the first K datagrams: both streams arrive intact. " +
 		"Non-trivial = every case (ratios differ) resp. fate vectors with a fault.")
 	// (a)
 	type pair struct{ d, p, rd, rp int }
@@ -484,6 +485,22 @@ func vfC16(c *hx.Ctx) {
 			c.Explore(fmt.Sprintf("stability/d=%d,p=%d/base=%#x", d, p, b), map[string]any{"d": d, "p": p, "base": b, "K": K, "fates": "deliver, drop, duplicate, swap with successor"}, 0, run)
 		}
 	}
+	// (c) whole sessions whose two ends are configured with different ratios (or FEC at one end only): the stream
+	// arrives intact in both directions under every fate vector over the first K datagrams
+	c.ByUnit = true
+	Ks := hx.Pick(c, 4, 5)
+	for _, m := range [][4]int{{2, 1, 3, 2}, {3, 2, 2, 1}, {2, 1, 0, 0}, {0, 0, 2, 1}, {1, 1, 10, 3}, {4, 2, 2, 2}, {2, 2, 2, 1}} {
+		for _, ciph := range []string{"", "aes-128"} {
+			if ciph != "" && (c.Quick() || m[0] == 0) && m != [4]int{2, 1, 3, 2} {
+				continue
+			}
+			cf := vfPairCfg{Cipher: ciph, DS: m[0], PS: m[1], SDS: m[2], SPS: m[3], Stream: true, NoDelay: [4]int{1, 10, 2, 1}, Writes: []int{700, 1300, 30, 2900, 5, 1200}, WritesBack: []int{900, 40, 1500},
+				ReadBuf: 4096, Pool: vrt.PoolEager, Preempt: 1, Switch: 1, Select: 1, Wire: false, Owners: []string{"C16:", "C01:", "C02:", "C15:"}, K: Ks, HorizonS: 60}
+			c.UnitBudget = 12 * time.Second
+			c.Explore(fmt.Sprintf("session-mismatch/client=%d,%d/listener=%d,%d/cipher=%s", m[0], m[1], m[2], m[3], ciph), vfPairParams(cf, 0), 0, vfPairRun(cf, 0, vfStdBody))
+		}
+	}
+	c.ByUnit = false
 }
 
 // vfC16ConvergeFrom starts the run `res` packets into a group.
